@@ -26,6 +26,8 @@ import (
 
 const casesPerHier = 12
 
+var debug = os.Getenv("C01_DEBUG") != ""
+
 // CaseSpec is the serialisable replay case.
 type CaseSpec struct {
 	Seed      uint64      `json:"seed"`
@@ -251,6 +253,10 @@ func (run *runner) hierarchy(index, onlyCase int) {
 			r.Count("servfail_without_ede/control", 1)
 		}
 		controlOK[q.Kind] = ok
+		if debug {
+			ad := reply != nil && reply.AuthenticatedData
+			fmt.Fprintf(os.Stderr, "H%d %s control %-40s -> %s ad=%v ok=%v want=%s/%s mustFail=%v %s\n", index, pattern, q, j.Class, ad, ok, e.res.Final.Kind, e.res.Status, e.mustFail, j.Why)
+		}
 		// the same question again with other flag combinations: served from
 		// the caches this history filled.
 		if ok && rng.IntN(3) == 0 {
@@ -495,6 +501,10 @@ func (run *runner) tamperCase(w *world, hier, ci int, rng *rand.Rand, perm []int
 	r.Eval(1)
 	run.report(j, withPhase(cs, "tampered", &q), w, reply, from)
 
+	if debug {
+		ad := reply != nil && reply.AuthenticatedData
+		fmt.Fprintf(os.Stderr, "H%d case %d %s all=%v cdfirst=%v %-40s -> %s ad=%v applied=%d %s\n", hier, ci, label, allServers, cdFirst, q, j.Class, ad, applied, j.Why)
+	}
 	observed := false
 	if applied > 0 {
 		for _, p := range w.u.Log.Since(from) {
